@@ -8,6 +8,7 @@ from mir import (
     access_path,
     callee_names,
     const_int,
+    const_bytes,
     is_call_to,
     origin_mentions,
     origin_str,
